@@ -51,7 +51,9 @@ def miri_run(pkg, mode, shards, extra_args=None, timeout=6 * 3600):
     # one sequential invocation first so that the parallel shards find everything built
     from vdriver import HARNESS, env_base, sh
     e = env_base(); e.update(env)
-    p = sh(['cargo', '+nightly', 'miri', 'run', '-q', '--offline', '-p', pkg, '--', '--mode', mode, '--tier', 'quick', '--only', 'no-such-case'], cwd=HARNESS, env=e)
+    # (bounded to length 0: under Miri even skipping the full enumeration's descriptors costs minutes)
+    warm = ['--caps', '1,1,1', '--budget', '60'] if pkg == 'e_own' else ['--maxn', '0', '--shard', '0/64']
+    p = sh(['cargo', '+nightly', 'miri', 'run', '-q', '--offline', '-p', pkg, '--', '--mode', mode, '--tier', 'quick'] + warm, cwd=HARNESS, env=e)
     if p.returncode not in (0, 2):
         raise Machinery(f'miri build/run of {pkg} failed: {p.stderr[-2000:]}')
     r = run_engine(miri_cmd(pkg), mode, 'quick', shards=shards, env=env, timeout=timeout, extra_args=extra_args, label='miri')
@@ -60,7 +62,7 @@ def miri_run(pkg, mode, shards, extra_args=None, timeout=6 * 3600):
     return r
 
 
-def engine_part(name, pkg, mode, shards_quick=1, shards_thorough=NCPU, release_in_thorough=True, thorough_only=False, timeout=7200, asan=None, asan_args=None, miri=False, miri_args=None, nda=True):
+def engine_part(name, pkg, mode, shards_quick=1, shards_thorough=NCPU, release_in_thorough=True, thorough_only=False, timeout=7200, asan=None, asan_args=None, miri=False, miri_args=None, nda=True, miri_quick_args=None):
     """asan: None | 'quick' (AddressSanitizer substrate in both tiers, at the quick bounds) | 'thorough' (thorough tier only)
     nda: also run the quick enumeration on the `nda` profile (dev build cost, debug assertions and overflow checks OFF: what
     debug_assert!, std's unsafe-precondition checks and overflow panics turn into in an optimised build), in both tiers"""
@@ -90,6 +92,11 @@ def engine_part(name, pkg, mode, shards_quick=1, shards_thorough=NCPU, release_i
             r3 = asan_run(pkg, mode, 'quick', max(shards_quick, 4), extra_args=asan_args, timeout=timeout)
             res['violations'] += r3['violations']
             subs['asan(nightly,-Zsanitizer=address)'] = {'evaluations': r3['result'].get('evaluations'), 'violations': len(r3['violations'])}
+        if miri_quick_args is not None and tier == 'quick':
+            # "Miri-mini": the smallest lengths of the same enumeration under Miri in the quick tier too (properties about memory)
+            r5 = miri_run(pkg, mode, NCPU, extra_args=miri_quick_args, timeout=1800)
+            res['violations'] += r5['violations']
+            subs['miri(nightly, tree borrows, quick bounds)'] = {'evaluations': r5['result'].get('evaluations'), 'violations': len(r5['violations']), 'args': miri_quick_args}
         if miri and tier == 'thorough':
             r4 = miri_run(pkg, mode, NCPU, extra_args=miri_args)
             res['violations'] += r4['violations']
@@ -146,7 +153,7 @@ PROPS['C06'] = {
 PROPS['C04'] = {
     'level': 'fault_enumeration',
     'technique': 'exhaustive single-fault enumeration: every call index of every closure / Clone::clone / Iterator::next an operation makes is made to panic once, on the real code, judged by a drop ledger',
-    'parts': [engine_part('caller-panic-enumeration', 'e_fault', 'C04', shards_quick=4, asan='thorough')],
+    'parts': [engine_part('caller-panic-enumeration', 'e_fault', 'C04', shards_quick=4, asan='thorough', miri=True, miri_args=['--maxn', '2'])],
     'rule': ("for every operation x receiver/argument form (generate x4 + default x2; map x4; fold x4; zip 9 stack forms + boxed; Clone and clone_from of array, Box and of the by-value iterator from every (origin, front, back); "
              "iterator fold/rfold/for_each/map-collect from every position; try_from_iter/from_iter/try_boxed_from_iter/boxed from_iter from a scripted source of c in {0,N-1,N,N+1,N+2} items with exact/absent hints, and from real "
              "into_iter().map chains; ArrayBuilder/IntrusiveArrayBuilder/ArrayConsumer dropped at every position and fed by extend) x N in {0..9,16,17,33} (iterator positions N<=8 and 16), and N in {100, 1000} for a reduced scenario list with the fault-index lattice {first, last, quartiles, both sides of every power of two}, x element-type "
@@ -164,7 +171,7 @@ PROPS['C04'] = {
 PROPS['C05'] = {
     'level': 'fault_enumeration',
     'technique': 'exhaustive single-fault enumeration: for every internally-dropping operation from every iterator position, every choice of the one element whose destructor panics, on the real code; the run continues after the caught panic and a drop ledger is judged',
-    'parts': [engine_part('destructor-panic-enumeration', 'e_fault', 'C05', shards_quick=4, asan='thorough'), engine_part('serde-teardown', 'e_misc', 'C05', shards_quick=1)],
+    'parts': [engine_part('destructor-panic-enumeration', 'e_fault', 'C05', shards_quick=4, asan='thorough', miri=True, miri_args=['--maxn', '2']), engine_part('serde-teardown', 'e_misc', 'C05', shards_quick=1)],
     'rule': ("for every (origin fresh|clone, front f, back b) of the by-value iterator with N in 0..=8 complete and 16 on the position lattice x operation in {nth(n), nth_back(n) for n in 0..=len+1, count, last, drop, "
              "fold/rfold/for_each with a dropping closure, clone-then-drop, collect-then-drop, clone_from into and from a part-consumed iterator, and the methods the crate leaves to std's provided implementations today - find, rfind, position, rposition, any, all, try_fold, try_rfold (match / break at every j), reduce, max_by_key, min_by_key, partition, skip(j).next, step_by, by_ref().take(j), rev().nth(j), skip_while, zip with another iterator}; dropping a GenericArray / Box / fresh iterator / boxed into_iter; ArrayBuilder, IntrusiveArrayBuilder and ArrayConsumer dropped at every position; the "
              "error paths of try_from_iter, from_iter, try_boxed_from_iter, boxed from_iter, TryFrom<Vec>, try_from_vec, try_from_boxed_slice, TryFrom<Box<[T]>> for c in {0,1,N-1,N,N+1,N+2}; map/zip/fold (owned and boxed) with closures that drop "
@@ -185,7 +192,7 @@ _ALLOC_RULE = ("enumeration shared by C15/C16: operation in {TryFrom<Vec>, TryFr
 PROPS['C15'] = {
     'level': 'exploration',
     'technique': 'bounded exhaustive enumeration of (conversion, N, element, source length, capacity) on the real code under a recording global allocator; multi-MiB constructions in child processes on a 256 KiB stack',
-    'parts': [engine_part('heap-interop', 'e_alloc', 'C15', shards_quick=4)],
+    'parts': [engine_part('heap-interop', 'e_alloc', 'C15', shards_quick=4, miri=True, miri_args=['--maxn', '2'])],
     'rule': _ALLOC_RULE + ("oracle: contents/ids in order, Ok iff L == N else LengthError (documented panic for collect) with every source element dropped once, and for the successful O(1) conversions the data pointer is unchanged and the "
              "recording allocator saw zero calls inside the conversion (try_from_vec only when len == capacity). Plus 12 constructions of 2^20-element u64/u128 arrays (8-16 MiB: default_boxed, boxed generate, box_arr! type and const forms, "
              "boxed from_iter, try_boxed_from_iter, try_from_vec, into_vec round trip), each in its own #[inline(never)] function and child process on a thread with a 256 KiB stack (thorough: also the release build). "
@@ -198,7 +205,7 @@ PROPS['C15'] = {
 PROPS['C16'] = {
     'level': 'fault_enumeration',
     'technique': 'exhaustive fault enumeration under a recording global allocator: every closure-call panic index in-process, and every allocation request of the operation failing in turn in a child process, on the real code',
-    'parts': [engine_part('allocator-log', 'e_alloc', 'C16', shards_quick=NCPU)],
+    'parts': [engine_part('allocator-log', 'e_alloc', 'C16', shards_quick=NCPU, miri=True, miri_args=['--maxn', '2'])],
     'rule': _ALLOC_RULE + ("every case is recorded from input construction to the last drop. Fault modes: none (all cases); for N in {0,1,2,3,8,33} (thorough: all) a panic at every call index of the generator / mapping / folding closure, Clone, Default or "
              "source next; and each allocator request made inside the operation failing in turn, in a child process. Oracle: no zero-size request, every release carries the size and alignment of its request, no double release, no block "
              "live once all values are dropped (also after a caught panic); a failed request ends in SIGABRT with std's 'memory allocation of N bytes failed' (handle_alloc_error) — a SIGSEGV, a null-reference abort or survival is a violation. "
@@ -211,7 +218,7 @@ PROPS['C16'] = {
 PROPS['C02'] = {
     'level': 'exploration',
     'technique': 'bounded exhaustive enumeration of (N, source length L, entry point, element type) and of the shared/mutable view matrix on the real code, with pointer/length oracles on canaried buffers',
-    'parts': [engine_part('views', 'e_views', 'C02', shards_quick=2, asan='thorough', miri=True, miri_args=['--maxn', '5'])],
+    'parts': [engine_part('views', 'e_views', 'C02', shards_quick=2, asan='thorough', miri=True, miri_args=['--maxn', '5'], miri_quick_args=['--maxn', '2'])],
     'rule': ("length gate: N in {0..13,15,16,17,31,32,33,64,100,255,256,1000,1024} x every L in 0..=N+2 (N<=13) or {0,1,N-1,N,N+1,2N} x {from_slice, try_from_slice, TryFrom<&[T]>, from_mut_slice, try_from_mut_slice, TryFrom<&mut [T]>} x element in "
              "{u8, u64, (), 4-byte tracked, zero-sized tracked, 16-byte/16-aligned, padded (u8,u16), 3-byte, 64-byte/64-aligned, 32-byte/32-aligned tracked}; the source is the middle of a larger buffer with canary elements; oracle: accepted iff L == N (documented panic / LengthError otherwise), accepted view = "
              "(address of the source, N), contents in order, writes through mutable views land in the source, canaries untouched. View matrix per (N, element): nine shared views and eight mutable views must all be (array address, N) with the elements in order; through each of the eight "
@@ -224,7 +231,7 @@ PROPS['C02'] = {
 PROPS['C10'] = {
     'level': 'exploration',
     'technique': 'bounded exhaustive enumeration of (N, slice length L, shared/mutable, element type) for the chunk functions on the real code with pointer/length oracles; the same calls are also run inside the const evaluator by the C18 corpus',
-    'parts': [engine_part('chunks', 'e_views', 'C10', shards_quick=2, asan='thorough', miri=True, miri_args=['--maxn', '8'])],
+    'parts': [engine_part('chunks', 'e_views', 'C10', shards_quick=2, asan='thorough', miri=True, miri_args=['--maxn', '8'], miri_quick_args=['--maxn', '2'])],
     'rule': ("N in {0,1,2,3,7,8,16,17,33,64,100,1024} x every L in 0..=4N+3 (N>=100: {0,1,N-1,N,N+1,2N-1,2N,2N+1,4N+3}) x {chunks_from_slice, chunks_from_slice_mut} x element in {u8, padded (u8,u16), u64, (), 16-aligned, tracked}; oracle: parts are "
              "(src, L/N) and (src + (L/N)*N*size, L mod N), element [c][j] == src[c*N+j], slice_from_chunks(_mut) of the chunk part is (src, (L/N)*N), writes through each mutable part land at that source index, canaries untouched; N = 0: empty -> two empty "
              "results, non-empty -> the documented panic. from_chunks/into_chunks(_mut) and slice_from_chunks(_mut) applied directly to 0..=5 arrays (the only way to have chunks of length 0): same address and count, writes visible. For zero-sized elements also L in {2^32-2, 2^32-1, 2^32, 2^32+7, 2^33+1, 2^40+N+1, isize::MAX} (lengths only). Non-trivial = L > 0."),
@@ -235,7 +242,7 @@ PROPS['C10'] = {
 PROPS['C11'] = {
     'level': 'exploration',
     'technique': 'bounded exhaustive enumeration of (N, M, owned/&/&mut, element type) for flatten/unflatten on the real code with identity, ledger and address oracles',
-    'parts': [engine_part('regroup', 'e_views', 'C11', shards_quick=1, asan='thorough', miri=True)],
+    'parts': [engine_part('regroup', 'e_views', 'C11', shards_quick=1, asan='thorough', miri=True, miri_args=['--maxn', '6'], miri_quick_args=['--maxn', '2'])],
     'rule': ("every (N, M) in 0..=6 x 0..=6 (unflatten: N >= 1) plus (1,1024), (1024,1), (16,64), (3,100), (7,9) x {owned, &, &mut} x element in {4-byte tracked, zero-sized tracked, u8, u64}; oracle: flat[i*N+j] is inner[i][j] by identity, unflatten is the exact "
              "inverse, the owned forms drop nothing (ledger), the reference forms return (same address, same byte extent, N*M resp. M elements) and a write at every index (lattice above 36 elements) through the &mut regrouped view appears at the computed "
              "index of the original. Non-trivial = N*M > 0."),
@@ -247,7 +254,7 @@ PROPS['C11'] = {
 PROPS['C07'] = {
     'level': 'fault_enumeration',
     'technique': 'exhaustive enumeration of the environment of a collecting call: scripted source (item count x size-hint policy x fusedness x panic at every next() call) against all four collecting entry points on the real code',
-    'parts': [engine_part('scripted-source', 'e_ops', 'C07', shards_quick=4)],
+    'parts': [engine_part('scripted-source', 'e_ops', 'C07', shards_quick=4, miri=True, miri_args=['--maxn', '2'])],
     'rule': ("N in {0..8,16,17,33,100} x produced item count c in 0..=N+3 (and N = 1000 on a count / panic-index lattice) x size-hint policy in {exact, absent, lower-only, upper-only, loose both, lying low (upper < c), lying high (lower > c), changing between calls, upper bound exactly usize::MAX with lower 0 or exact} x "
              "fused / not fused (a non-fused source yields again if polled after its first None, and counts such polls) / fused and carrying the FusedIterator marker (std's Fuse adaptor is then a pass-through) x entry point in {try_from_iter, from_iter, try_boxed_from_iter, boxed from_iter} x element in {tracked, zero-sized tracked, u32}; "
              "for each, the fault-free run and one run per next() call index with that call panicking (all policies for N<=5, exact/absent/lying-high otherwise). Oracle: Ok implies c == N and element i is the i-th produced item, and is impossible when the hint announced before the first pull already rules N out (lower > N or upper < N); c == N with a truthful "
@@ -260,7 +267,7 @@ PROPS['C07'] = {
 PROPS['C08'] = {
     'level': 'exploration',
     'technique': 'bounded exhaustive enumeration of (operation, receiver/argument form, element-type combination, N) with recording closures on the real code',
-    'parts': [engine_part('call-order', 'e_ops', 'C08', shards_quick=1)],
+    'parts': [engine_part('call-order', 'e_ops', 'C08', shards_quick=1, miri=True, miri_args=['--maxn', '3'])],
     'rule': ("N in {0..8,16,17,33,64,100,128,1000} x {generate x4 forms (array, &, &mut, Box), map x4, fold x4, zip: nine stack receiver x argument forms + boxed x boxed, Clone and clone_from (array, Box), Default, default_boxed} x element-type combinations over "
              "{tracked 4/8/24-byte, 32-byte/32-aligned tracked, zero-sized tracked, Clone-only without drop glue, zero-sized without drop glue, plain u32, 3-byte, 64-byte/64-aligned} (selecting the drop-aware and no-drop code paths). Closures log every call with its arguments. Oracle: the log is exactly (a[0]) (a[1]) ... once each ascending - for zip the pair "
              "(a[i], b[i]) in that argument order, for fold a non-commutative accumulator threaded left to right - result element i is what call i returned, Clone/Default are called N times in index order, and nothing is left alive or dropped twice. "
@@ -272,7 +279,7 @@ PROPS['C08'] = {
 PROPS['C09'] = {
     'level': 'exploration',
     'technique': 'bounded exhaustive enumeration of (N, K, M, index, element size) for the sequence operations on the real code against the corresponding Vec operations, with ledger and address oracles',
-    'parts': [engine_part('sequence-ops', 'e_seq', 'C09', shards_quick=4, asan='quick', asan_args=['--maxn', '33'], miri=True, miri_args=['--maxn', '17'])],
+    'parts': [engine_part('sequence-ops', 'e_seq', 'C09', shards_quick=4, asan='quick', asan_args=['--maxn', '33'], miri=True, miri_args=['--maxn', '17'], miri_quick_args=['--maxn', '2'])],
     'rule': ("complete for N in 0..=8: append/pop_back/prepend/pop_front chain, split::<K> for every K <= N in owned, & and &mut forms, concat for every (N, M) with N+M <= 8, remove(i) and swap_remove(i) (and their *_unchecked forms on valid indices) for every i in 0..=N+1 and usize::MAX, for every N in {1..13,15,16,17,24,32,33,64,100} and a 27-point index lattice for 256 and 1024; plus "
              "N in {15,16,17,31,32,33,63,64,100,255,256,1023,1024} with the split/concat position lattice {0,1,N/2,N-1,N}; element types of size 0 (tracked ZST, ()), 1 (u8), 2 (u16), 4 (tracked), 8 (tracked, u64), 24 (tracked, [u8;24]) and 128 (tracked). Oracle: results and removed values "
              "equal Vec push/insert(0)/pop/remove(0)/split_at/extend/remove/swap_remove on the same identities; the ledger shows exactly-once ownership after every step; out-of-range remove/swap_remove raise the documented panic with every element "
@@ -285,7 +292,7 @@ PROPS['C09'] = {
 PROPS['C13'] = {
     'level': 'exploration',
     'technique': 'bounded exhaustive enumeration of all pairs of arrays over three-letter alphabets (N <= 4) and of difference-position families (larger N) on the real code against the slices of the same elements, with a recording Hasher',
-    'parts': [engine_part('cmp-hash-debug', 'e_misc', 'C13', shards_quick=1)],
+    'parts': [engine_part('cmp-hash-debug', 'e_misc', 'C13', shards_quick=1, miri=True, miri_args=['--maxn', '2'])],
     'rule': ("for N in 0..=4 every pair of arrays over a three-letter alphabet (sum 3^(2N) = 7381 pairs per element type) for u8 {0,1,255}, i32 {-1,0,1}, f64 {NaN,0.0,1.5}, f64 {-0.0,0.0,NaN}, String {'', 'a', 'b'} and nested GenericArray<u8,U2>; a case is one left "
              "operand compared with every right operand: ==, !=, partial_cmp, <, <=, >, >= and (for Ord types) cmp must equal the slices'; Debug under {:?} {:#?} {:5?} {:.1?} {:08.3?} {:x?} {:#X?} {:<7?} {:+?} must equal the slice's; the byte-for-byte "
              "write sequence a recording Hasher receives from array.hash() must equal the slice's, and HashMap/BTreeMap keyed by arrays must be found through &[T] via Borrow. For N in {5,8,16,33,100}: equal / differ only at p for every p / differ at p and "
@@ -297,7 +304,7 @@ PROPS['C13'] = {
 PROPS['C17'] = {
     'level': 'fault_enumeration',
     'technique': 'exhaustive enumeration of the deserialisation environment: scripted Deserializer/SeqAccess (delivered count x up-front hint x later hints x element error at every index) plus real formats (JSON text, bincode, serde_json::Value) and a recording Serializer, on the real code',
-    'parts': [engine_part('serde', 'e_misc', 'C17', shards_quick=1)],
+    'parts': [engine_part('serde', 'e_misc', 'C17', shards_quick=1, miri=True, miri_args=['--maxn', '2'])],
     'rule': ("N in {0..8,16,33} (and 100 on a count / error-index lattice). Scripted source: delivered element count c in 0..=N+2 x up-front size hint in {none, exact, too small (N-1), too large (N+1), 'N' regardless of what is delivered} x later hints in {truthful remaining, none} x "
              "(no error | element k fails to parse, for every k < c), element type drop-tracked. Oracle: deserialize asks for a tuple of exactly N; Ok iff c == N and no element < N failed (hint none/exact/N), and then element i is the i-th element read; "
              "c != N or a failing element < min(N, c) must be an error; every element read is dropped exactly once afterwards; the sequence is never polled after it reported its end. The documented exclusion (a source reporting 'nothing left' while "
@@ -311,7 +318,7 @@ PROPS['C17'] = {
 PROPS['C19'] = {
     'level': 'exploration',
     'technique': 'bounded exhaustive enumeration of (N, element type, prior contents) for zeroize and of (N, element type) for the constant default, evaluated by the compiler (const/static items) and at run time, on the real code',
-    'parts': [engine_part('zeroize-constdefault', 'e_misc', 'C19', shards_quick=1, asan='thorough')],
+    'parts': [engine_part('zeroize-constdefault', 'e_misc', 'C19', shards_quick=1, asan='thorough', miri=True, miri_args=['--maxn', '3'])],
     'rule': ("every N in 0..=65 and {100,127,128,255,256,257,1000,1023,1024} (every even/odd storage shape to depth 6 complete, boundary shapes to depth 10). zeroize: element in {u8, u64, [u8;3], GenericArray<u8,U3>, Probe{a:u8,b:u32}, Wipe7 / Wipe1 (two-byte / one-byte types that zeroize to a "
              "non-zero value), Option<bool>, NonZeroU8, Keep (keeps a tag field across zeroize, so its zeroized value depends on its prior content) and GenericArray<Keep,U2>} x prior contents in {all 0xFF, index-dependent, already zero}; every element must equal its zeroized value. Constant default: element in {u8, u64, Probe (DEFAULT a=1, b=0xDEADBEEF), GenericArray<Probe,U3>, (u8,Probe)}; "
              "const_default() and DEFAULT evaluated in a const item, a static item and at run time must all be N copies of T::DEFAULT and equal Default::default(). Non-trivial = N > 0."),
@@ -461,6 +468,10 @@ def own_part():
             for v in r2['violations']:
                 v['substrate'] = 'release'
             subs['release(opt-level=3)'] = {'evaluations': r2['result'].get('evaluations'), 'states': r2['result'].get('states'), 'violations': len(r2['violations'])}
+            # Miri substrate (Tree Borrows) at the smallest caps: every operation of the alphabet is interpreted at least once
+            r4 = miri_run('e_own', 'C03', 1, extra_args=['--caps', '2,1,2', '--budget', '3000'])
+            res['violations'] += r4['violations']
+            subs['miri(nightly, tree borrows)'] = {'evaluations': r4['result'].get('evaluations'), 'states': r4['result'].get('states'), 'violations': len(r4['violations']), 'args': ['--caps', '2,1,2']}
             viols = res['violations'] + r2['violations']
             merged = r2['result']
             for k in ('evaluations', 'distinct_nontrivial', 'states', 'transitions'):
@@ -471,6 +482,13 @@ def own_part():
         return res
 
     def replay(part, body):
+        if body.get('substrate') == 'miri':
+            env = dict(MIRI_ENV, CARGO_TARGET_DIR=miri_target())
+            rc, out, err = run_engine_once(miri_cmd('e_own'), ['--mode', 'C03', '--tier', 'thorough', '--only', body['desc']], env, 3600)
+            viols, result, _ = parse_engine_output(out)
+            if rc not in (0, 2) or result is None:
+                return [{'desc': body['desc'], 'what': f'miri reports: {err[-600:]}'}]
+            return viols
         if body.get('substrate') == 'asan':
             cargo_build('e_own', 'dev', toolchain='nightly', extra_env=ASAN_ENV, target_dir=asan_target(), extra_args=['--target', ASAN_TRIPLE])
             binary, env = bin_path('e_own', 'dev', asan_target(), ASAN_TRIPLE), ASAN_RUN_ENV
